@@ -280,6 +280,41 @@ async def introspection_context_scenario(rng, sdl=None, requests=None, roles=("g
     return problems, len(reqs) * 9
 
 
+async def family_histories(rng, rounds):
+    """Requests issued one after the other on ONE engine behave as on a fresh engine: the invalid / valid document family
+    of the C16 check (cycles then valid nestings over the same fragment names, one operation text over different
+    fragments, ...) played in several orders; the reference of each request is the answer of a fresh engine in a FRESH
+    INTERPRETER, so residue kept anywhere in the process (rule objects, module-level memos) shows as well."""
+    from . import c16_worker
+    fs = c16_worker.fixed_schema()
+    fam = c16.isolated_family()
+    refs = c16.isolated_references(fam)
+    problems, n = [], 0
+    for rnd in range(rounds):
+        order = list(range(len(fam)))
+        if rnd == 1:
+            order.reverse()
+        elif rnd > 1:
+            rng.shuffle(order)
+        rec, oref = execgen.Recorder(), [None, {"ctx": 1}]
+        eng = await execgen.build_engine(fs, fresh_schema_name("c15fam"), oref, rec)
+        for pos, i in enumerate(order + order[:8]):
+            c = fam[i]
+            oref[0] = execgen.Oracle(fs, c["oracle_seed"], 0.05, 0.08)
+            try:
+                resp = await eng.execute(c["query"], operation_name=c.get("opname"), variables=c["variables"], context=oref[1])
+            except Exception as e:  # pylint: disable=broad-except
+                resp = {"raised": repr(e)}
+            n += 1
+            if "worker_failed" in refs[i]:
+                problems.append({"what": "reference worker failed", "detail": refs[i]["worker_failed"]})
+            elif c16.canon(resp) != c16.canon(refs[i]):
+                problems.append({"what": "request #%d of the history answered differently from a fresh engine in a fresh interpreter" % pos,
+                                 "query": c["query"], "variables": c["variables"], "answered": resp, "fresh": refs[i],
+                                 "history": [fam[j]["query"] for j in (order + order[:8])[:pos]][-12:]})
+    return problems, n
+
+
 async def explore(s, groups, rng, strategies):
     shared = await sched.build_gated_engine(s, fresh_schema_name("c15"), None, None, CFG)
     out = []
@@ -380,10 +415,14 @@ def main(tier_, replay=None):
     p2, n2 = asyncio.run(introspection_context_scenario(rng, NO_INTROSPECTION_SDL, NO_INTROSPECTION_REQUESTS, roles=("guest",)))
     intro_problems += ["non-introspectable schema: " + x for x in p2]
     total_requests += n2
+    fam_problems, nf = asyncio.run(family_histories(rng, 2 if tier_ == "quick" else 5))
+    total_requests += nf
+    for pr in fam_problems[:3]:
+        rep.violation(dict(pr, property="C15", kind="a request issued after other requests does not behave as on a fresh engine"))
     for pr in intro_problems[:3]:
         rep.violation({"property": "C15", "kind": "the context of one request changes what another request is answered "
                        "(introspection directive depending on the context)", "sdl": INTROSPECTION_SDL, "problem": pr})
-    viol_extra = len(intro_problems)
+    viol_extra = len(intro_problems) + len(fam_problems)
     for s, res, why in viol[:5]:
         rep.violation({"property": "C15", "kind": why[:6], "sdl": gen.schema_sdl(s),
                        "requests": [{"query": c["query"], "variables": c["variables"], "operation_name": c.get("opname"),
